@@ -71,6 +71,7 @@ func runC19(c *report.Ctx) {
 	rulePtrWithErr(c)
 	ruleNilOnSuccess(c)
 	ruleIndexedResultLengthChecked(c, []string{pkgAPI, pkgWallet, pkgTxmgr, pkgKeystore, pkgUtils}, 3)
+	ruleElementMapsAreMade(c)
 	ruleBalanceMapCoversReadyWallets(c)
 	ruleBalanceLookupPresence(c)
 	ruleUnmarshalLeavesKeyUsable(c)
